@@ -67,7 +67,9 @@ def s13_counter_arithmetic(ctx):
     if div is not None:
         num, den = origin_str(div[2]), origin_str(div[3])
         dn = peel(div[3])
-        good = "dead_keys" in num and "live" not in num and dn[0] == "bin" and dn[1] == "Add" and {("dead_keys" in origin_str(dn[2])), ("live_keys" in origin_str(dn[3]))} == {True} and ("dead_keys" in origin_str(dn[2]) or "dead_keys" in origin_str(dn[3])) and ("live_keys" in origin_str(dn[2]) or "live_keys" in origin_str(dn[3]))
+        if dn[0] == "bin" and dn[1] == "Add":
+            sides = [access_path(dn[2]) or "", access_path(dn[3]) or ""]
+            good = access_path(div[2]) == "self.dead_keys" and sorted(sides) == ["self.dead_keys", "self.live_keys"]
     r.add(f, "dead / (dead + live)", good, short_span(fb.span), origin_str(div)[:120] if div else "no division")
     return r
 
@@ -140,6 +142,11 @@ def s15_position_tracking(ctx):
                 ret_ok = bool(rs) and all(o2 is not None and peel(o2)[0] in ("arg", "var") and not origin_mentions(o2, lambda y: y[0] == "upvar") for o2 in rs)
         r.add(f, "pos += the count the inner %s returned" % meth, good, short_span(b.span))
         r.add(f, "returns that count", ret_ok or b.def_kind != "AssocFn" or good, short_span(b.span))
+    for ty in ("BufWriterWithPos", "BufReaderWithPos"):
+        pb = prog.one("storage::bitcask::bufio::%s::pos" % ty)
+        rs = [ret_origin(pb, d) for c, d, rb in ret_classes(pb, 0, lambda e: e.kind == "unwind")]
+        good = bool(rs) and all(o is not None and access_path(o) == "self.pos" for o in rs) and not list(pb.calls())
+        r.add(fam_name(pb), "pos() is the tracked position itself", good, short_span(pb.span), "; ".join(origin_str(o)[:80] for o in rs if o is not None))
     nb = prog.one("storage::bitcask::bufio::BufWriterWithPos::new")
     sk = calls_in([nb], "std::io::Seek::seek")
     good = False
@@ -609,7 +616,7 @@ def s19_value_transparency(ctx):
             r.unrec(f, "storage.%s ×%d" % (meth, len(cs)), short_span(fam[0].span), "expected one call")
             continue
         x, bb, t = cs[0]
-        got = [arg_path(x, t, i) for i in range(1, len(t["args"]))]
+        got = [resolved_access_path(prog, x, arg_origin(x, t, i)) for i in range(1, len(t["args"]))]
         if args is not None:
             r.add(f, "storage.%s(%s)" % (meth, ", ".join(args)), got == args, where(x, bb), "called with %s" % got)
         else:
@@ -731,7 +738,7 @@ def s20_client_response_mapping(ctx):
 
 
 def s21_forwarding(ctx):
-    r = RuleResult("S21", "the thin forwarding layers forward: `impl KeyValueStorage for Handle` maps set→put(key, value), get→get(key), del→delete(key) and returns that result; Handle::get returns what the pooled reader's get(key) returned (or Err(Closed)); PooledReader::get forwards to Reader::get(key); Reader::get returns the `value` of the record it read, or None when the key is not in the index; Bitcask::get_handle returns a clone of the store's own handle", floor=7)
+    r = RuleResult("S21", "the thin forwarding layers forward: `impl KeyValueStorage for Handle` maps set→put(key, value), get→get(key), del→delete(key) and returns that result; Handle::get returns what the pooled reader's get(key) returned (or Err(Closed)); PooledReader::get forwards to Reader::get(key); Reader::get returns the `value` of the record it read, or None when the key is not in the index; Bitcask::get_handle returns a clone of the store's own handle", floor=6)
     prog = ctx.prog
     sb = shipped_bodies(prog)
 
@@ -862,7 +869,21 @@ def p21_new_active_datafile(ctx):
         return r
     _, cbb, ct = cr[0]
     o = peel(arg_origin(b, ct, 0))
-    good = o[0] == "call" and o[1].endswith("datafile_name") and len(o[2]) == 2 and o[2][1] == ("arg", "fileid") and (access_path(o[2][0]) or "").startswith("self.ctx.conf.path")
+    def names_fileid(x):
+        if x == ("arg", "fileid"):
+            return True
+        if access_path(x) == "self.active_fileid":
+            # the field, when it was set to `fileid` before the create on every path
+            sets = []
+            for bb in b.live_blocks():
+                for st in b.blocks[bb]["stmts"]:
+                    if st["k"] == "assign" and st["pl"]["p"] and st["pl"]["p"][-1][0] == "f" and st["pl"]["p"][-1][2] == "active_fileid":
+                        sets.append((bb, b.origin_rvalue(st["rv"])))
+            if sets and all(so == ("arg", "fileid") for _, so in sets):
+                return cbb not in reach(b, [0], blocked_edges=lambda e: e.kind == "unwind", blocked_blocks={bb for bb, _ in sets})
+        return False
+
+    good = o[0] == "call" and o[1].endswith("datafile_name") and len(o[2]) == 2 and names_fileid(o[2][1]) and (access_path(o[2][0]) or "").startswith("self.ctx.conf.path")
     r.add(f, "creates datafile_name(conf.path, fileid)", good, where(b, cbb), origin_str(o)[:120])
     # field assignments
     assigns = {}
@@ -1229,4 +1250,58 @@ def s12b_config_keys(ctx):
         missing = [f for f in fields if f not in keys]
         n += 1
         r.add(ty, "every field name is an accepted key", not missing and bool(keys), short_span(b.span), "accepted keys %s" % keys if not missing else "field(s) %s cannot be set under their own name; accepted keys are %s" % (missing, keys))
+    return r
+
+
+W8_ALLOWED = {"channel", "recv", "subscribe", "is_closed", "closed", "receiver_count", "same_channel", "capacity", "max_capacity", "len", "is_empty"}
+
+
+def w8_channels_carry_no_messages(ctx):
+    r = RuleResult("W8", "the shutdown channels (tokio broadcast and mpsc) carry no messages: every operation on a channel endpoint anywhere in the library is a creation, a subscribe or a recv — nothing is ever sent, so `recv()` returning means that every sender is gone (all handlers finished resp. the store was dropped), never that somebody posted a wake-up", floor=5)
+    for nm, prog in ctx.all_programs():
+        for b in shipped_bodies(prog):
+            live = b.live_blocks()
+            for bi, t in b.calls():
+                if bi not in live:
+                    continue
+                cn = strip_generics(t.get("callee")) or ""
+                if not (cn.startswith("tokio::sync::mpsc") or cn.startswith("tokio::sync::broadcast")):
+                    continue
+                m = cn.split("::")[-1]
+                ok = m in W8_ALLOWED
+                r.add(fam_name(b) if nm == "lib" else "%s::%s" % (nm, fam_name(b)), "%s::%s" % (cn.split("::")[-2], m), ok, where(b, bi), "" if ok else "a message is sent on a channel whose only meaning is its closing: the waiting recv() returns while senders are still alive")
+    return r
+
+
+# functions of net::frame that may declare a frame incomplete, with the number of places in each that
+# were read (each fires only when the bytes it needs are not in the buffer yet)
+V8_REVIEWED = {
+    "net::frame::get_line": (1, "after the scan for CR reached the end of the buffer"),
+    "net::frame::get_integer": (1, "`idx >= end`: the digits run to the end of the buffer"),
+    "net::frame::get_byte": (1, "`!has_remaining()`"),
+    "net::frame::peek_byte": (1, "`!has_remaining()`"),
+    "net::frame::skip": (1, "`remaining() < n`"),
+    "net::frame::Frame::parse_nested": (1, "`len + 2 > remaining()`: the announced bulk payload and its CRLF are not all there"),
+    "net::frame::Frame::parse": (1, "`len + 2 > remaining()` (the same place when the parser is not split into parse/parse_nested)"),
+}
+
+
+def v8_who_says_incomplete(ctx):
+    r = RuleResult("V8", "only a shortage of bytes makes a frame incomplete: Error::Incomplete is constructed only at the reviewed places of the reader helpers (each guarded by a comparison with what is left in the buffer); Frame::check / check_nested declare nothing incomplete on their own — a complete encoding can never be held back waiting for more bytes", floor=4)
+    prog = ctx.prog
+    seen = {}
+    for b in shipped_bodies(prog):
+        if not b.name.startswith("net::frame::"):
+            continue
+        for bb in sorted(b.live_blocks()):
+            if b.blocks[bb]["cleanup"]:
+                continue
+            for st in b.blocks[bb]["stmts"]:
+                if st["k"] == "assign" and st["rv"]["k"] == "agg" and st["rv"]["ak"] == "adt" and strip_generics(st["rv"]["adt"]) == "net::frame::Error" and st["rv"]["variant"] == "Incomplete":
+                    seen.setdefault(fam_name(b), []).append((b, bb))
+    for fn, sites in sorted(seen.items()):
+        allowed = V8_REVIEWED.get(fn)
+        for i, (b, bb) in enumerate(sites):
+            ok = allowed is not None and i < allowed[0]
+            r.add(fn, "Incomplete #%d" % (i + 1), ok, short_span(b.blocks[bb]["stmts"][0].get("span")) if b.blocks[bb]["stmts"] else short_span(b.span), allowed[1] if ok else "an unreviewed place declares the frame incomplete (%d in this function, %d reviewed): a complete frame that meets this condition is never delivered" % (len(sites), allowed[0] if allowed else 0))
     return r
